@@ -40,6 +40,11 @@ def run(ctx):
     pv.require_clean()
     for inv in list(pv.invariant_violated) + list(getattr(pv, "property_violated", []) or []):
         ctx.violation({"tlc_counterexample": pv.counterexample()[-2:]}, "TLC refuted law %s of Validate.tla" % inv)
+    pa = ctx.tlc("P_Args", "SPECIFICATION Spec\nCONSTANTS\n  Languages = {\"en\", \"fr\"}\nINVARIANT OutcomeClasses\nINVARIANT WellTypedAccepted\n"
+                 "INVARIANT WrongTypeRefusedEarly\nINVARIANT ValueErrorMeans\nCHECK_DEADLOCK FALSE\n", timeout=900, name="P_Args")
+    pa.require_clean()
+    for inv in pa.invariant_violated:
+        ctx.violation({"tlc_counterexample": pa.counterexample()[-1:]}, "TLC refuted law %s of Validate.tla (ArgsVerdict)" % inv)
     order = langs_exp["language_order"]
     locales = [loc for L in order for loc in langs_exp["langs"][L]["locales"]]
     cases = core.replay_cases(ctx)
